@@ -251,6 +251,8 @@ def induced(ref: Ref, S):
     r.bond_stereo = {b: d for b, d in ref.bond_stereo.items() if inside(d)}
     r.atom_changes = {a: {c: d for c, d in v.items() if inside(d)} for a, v in ref.atom_changes.items()}
     r.bond_changes = {b: {c: d for c, d in v.items() if inside(d)} for b, v in ref.bond_changes.items()}
+    r.atom_changes = {a: v for a, v in r.atom_changes.items() if v}  # an entry without descriptors is no stereo change
+    r.bond_changes = {b: v for b, v in r.bond_changes.items() if v}
     return r
 
 
@@ -399,7 +401,32 @@ def run_c06(rep, tier, seed):
                     iso = isomorphic(ref, exp)
                     bodyq = f"g = build_real({ref_code(ref)})\ngot = (g == g.enantiomer())\nprint(got, 'oracle says', {iso!r})\nok = got is {iso!r}\n"
                     G["equal-to-enantiomer-iff-achiral"].case(not err3 and eq is iso, f"{name}: g == g.enantiomer() -> {err3 or eq}, mirror-image bijection exists: {iso}", bodyq)
-        for g_ in G.values():
+        # the same on EDITED graphs: states reached by public editing histories (descriptors deleted one by one, atoms removed ...)
+        from .history import reachable_states, rebuild
+        GE = {n: Group(rep, f"C06/bounded/{kind}/after-editing/{n}") for n in ("enantiomer-is-the-mirrored-state", "original-untouched", "twice-is-identity")}
+        seen = set()
+        for sref, hist in reachable_states(kind, seed, 6 if tier == "quick" else 60, 12 if tier == "quick" else 30):
+            g = rebuild(sref, hist)
+            st = snapshot(g)
+            key = repr(st.canon())
+            if key in seen:
+                continue
+            seen.add(key)
+            distinct += 1
+            before = raw_state(g)
+            e, err = safe(lambda: g.enantiomer())
+            exp = st.mirror()
+            body = (f"from vf.e3.history import rebuild\ng = rebuild({ref_code(sref)}, {list(hist)!r})\nst = snapshot(g)\ne = g.enantiomer()\n"
+                    f"print(snapshot(e).canon()); print(st.mirror().canon())\nok = snapshot(e).canon() == st.mirror().canon() and snapshot(e.enantiomer()).canon() == st.canon()\n")
+            GE["enantiomer-is-the-mirrored-state"].case(not err and snapshot(e).canon() == exp.canon(), f"after {list(hist)}: enantiomer() -> {err or snapshot(e).canon()} expected {exp.canon()}",
+                                                        body, sample={"history": [repr(h) for h in hist]})
+            GE["original-untouched"].case(raw_state(g) == before, f"after {list(hist)}: enantiomer() modified the original",
+                                          f"from vf.e3.history import rebuild\nfrom vf.spec.refmodel import raw_state\ng = rebuild({ref_code(sref)}, {list(hist)!r})\nb = raw_state(g)\ntry:\n    g.enantiomer()\nexcept Exception as e_:\n    print(e_)\nok = raw_state(g) == b\n")
+            if err:
+                continue
+            ee, err2 = safe(lambda: e.enantiomer())
+            GE["twice-is-identity"].case(not err2 and snapshot(ee).canon() == st.canon(), f"after {list(hist)}: enantiomer twice -> {err2 or snapshot(ee).canon()}", body)
+        for g_ in list(G.values()) + list(GE.values()):
             g_.close()
     rep.distinct_nontrivial = distinct
 
@@ -464,9 +491,46 @@ def run_c08(rep, tier, seed):
             ok, detail = c08_checks(kind, crg, r, p, ts)
             for k, (o, d) in ok.items():
                 G[k].case(o, f"{name}: {d}; r={r.describe()} p={p.describe()} ts={ts.describe() if ts else None}", body % k)
-        for g_ in G.values():
+        # reverse_reaction() on EDITED reaction graphs (states reached by public editing histories)
+        from .history import reachable_states, rebuild
+        GE = {n: Group(rep, f"C08/bounded/{kind}/after-editing/{n}") for n in ("reverse-swaps-roles-and-keeps-the-rest", "reverse-twice-is-identity", "original-untouched")}
+        seen = set()
+        for sref, hist in reachable_states(kind, seed, 6 if tier == "quick" else 60, 12 if tier == "quick" else 30):
+            g = rebuild(sref, hist)
+            st = snapshot(g)
+            key = repr(st.canon())
+            if key in seen:
+                continue
+            seen.add(key)
+            distinct += 1
+            before = raw_state(g)
+            rev, err = safe(lambda: g.reverse_reaction())
+            exp = reversed_ref(st)
+            body = (f"from vf.e3.history import rebuild\nfrom vf.e3.derive import reversed_ref\ng = rebuild({ref_code(sref)}, {list(hist)!r})\nst = snapshot(g)\nrev = g.reverse_reaction()\n"
+                    f"print(snapshot(rev).canon()); print(reversed_ref(st).canon())\nok = snapshot(rev).canon() == reversed_ref(st).canon() and snapshot(rev.reverse_reaction()).canon() == st.canon()\n")
+            GE["reverse-swaps-roles-and-keeps-the-rest"].case(not err and snapshot(rev).canon() == exp.canon(), f"after {list(hist)}: reverse_reaction() -> {err or snapshot(rev).canon()} expected {exp.canon()}",
+                                                              body, sample={"history": [repr(h) for h in hist]})
+            GE["original-untouched"].case(raw_state(g) == before, f"after {list(hist)}: reverse_reaction() modified the original",
+                                          f"from vf.e3.history import rebuild\nfrom vf.spec.refmodel import raw_state\ng = rebuild({ref_code(sref)}, {list(hist)!r})\nb = raw_state(g)\ntry:\n    g.reverse_reaction()\nexcept Exception as e_:\n    print(e_)\nok = raw_state(g) == b\n")
+            if err:
+                continue
+            rr, err2 = safe(lambda: rev.reverse_reaction())
+            GE["reverse-twice-is-identity"].case(not err2 and snapshot(rr).canon() == st.canon(), f"after {list(hist)}: reverse twice -> {err2 or snapshot(rr).canon()}", body)
+        for g_ in list(G.values()) + list(GE.values()):
             g_.close()
     rep.distinct_nontrivial = distinct
+
+
+def reversed_ref(st: Ref):
+    """reference of reverse_reaction(): formed <-> broken on bonds and inside stereo changes, everything else kept"""
+    sw = {"formed": "broken", "broken": "formed", "fleeting": "fleeting"}
+    r = st.copy()
+    for b, at in r.bonds.items():
+        if at.get("reaction") in sw:
+            at["reaction"] = sw[at["reaction"]]
+    r.atom_changes = {a: {sw[c]: d for c, d in v.items()} for a, v in st.atom_changes.items()}
+    r.bond_changes = {b: {sw[c]: d for c, d in v.items()} for b, v in st.bond_changes.items()}
+    return r
 
 
 def c08_checks(kind, crg, r, p, ts):
